@@ -165,6 +165,18 @@ def load_known_findings() -> tuple[dict[str, dict[str, Any]], list[dict[str, Any
     return known, data.get("fixed", [])
 
 
+def match_known(key: str, known: dict[str, dict[str, Any]]) -> str | None:
+    """Exact key, or an entry whose ``key_regex`` fully matches *key*."""
+    import re
+    if key in known:
+        return key
+    for k, e in known.items():
+        rx = e.get("key_regex")
+        if rx and re.fullmatch(rx, key):
+            return k
+    return None
+
+
 def _run_shard_subprocess(prop: str, shard: dict[str, Any], timeout: float,
                           outdir: str, idx: int) -> subprocess.Popen[bytes]:
     spec_path = os.path.join(outdir, f"shard{idx}.in.json")
@@ -329,13 +341,14 @@ def _fold(prop: str, module: Any, tier: str, seed: int,
     new_viols: list[dict[str, Any]] = []
     seen_new_keys: set[str] = set()
     for v in viols:
-        if v["key"] in known:
-            known_seen[v["key"]] = viol_counts.get(v["key"], 1)
+        mk = match_known(v["key"], known)
+        if mk is not None:
+            known_seen[mk] = known_seen.get(mk, 0) + 1
         else:
             new_viols.append(v)
     for k in sorted(known_seen):
         print(f"KNOWN-FINDING: property={prop} {k} :: {known[k].get('what', '')}"
-              f" (seen {known_seen[k]}x this run)")
+              f" (seen >={known_seen[k]}x this run)")
     replay_dir = Path(os.environ.get("VERIF_REPLAY_DIR", str(VERIF_ROOT / "replay")))
     n_new = 0
     for v in new_viols:
@@ -415,6 +428,16 @@ def exc_site(e: BaseException, roots: tuple[str, ...] = ("pytato", "pymbolic", "
                 site = "/".join(parts[i:]) + ":" + fs.name
                 break
     return site
+
+
+def norm_msg(msg: str, n: int = 48) -> str:
+    """Normalise an exception message for use inside a mechanism key."""
+    import re
+    m = re.sub(r"0x[0-9a-f]+", "0xN", msg)
+    m = re.sub(r"\d+", "N", m)
+    m = re.sub(r"[^A-Za-z0-9_ .:'()<>=/*+-]", " ", m)
+    m = re.sub(r"\s+", " ", m).strip()
+    return m[:n]
 
 
 def split_even(items: list[Any], n: int) -> list[list[Any]]:
